@@ -130,9 +130,28 @@ class Tr:
 
     def block(self, stmts):
         out = []
-        for s in stmts:
+        for idx, s in enumerate(stmts):
             if isinstance(s, ast.Expr) and isinstance(s.value, ast.Constant):
                 continue  # docstring
+            if isinstance(s, ast.If) and not s.orelse and len(s.body) == 1 and isinstance(s.body[0], ast.Return) \
+                    and s.body[0].value is not None:
+                # guard clause `if c: return e` followed by the rest of the block: `if c then e else (rest)`
+                c, ct = self.expr(s.test)
+                if ct != B:
+                    raise Unsupported("if condition not Bool")
+                env0, fresh0 = dict(self.env), set(self.fresh)
+                e1, t1 = self.ret_expr(s.body[0].value)
+                fr1 = self.ret_fresh
+                self.env, self.fresh = env0, fresh0
+                rest, r2 = self.block(stmts[idx + 1:])
+                if r2 is None:
+                    raise Unsupported("guard return without a return after it")
+                if r2[1] != t1:
+                    raise Unsupported("guard return of another type")
+                fr2 = self.ret_fresh
+                self.ret_fresh = [a and b for a, b in zip(fr1, fr2)] if isinstance(fr1, list) and isinstance(fr2, list) and len(fr1) == len(fr2) else fr2
+                body = "\n".join(rest + [r2[0]])
+                return out, (f"if {c} then {e1}\nelse (\n{textwrap.indent(body, '    ')})", t1)
             if isinstance(s, ast.Expr) and isinstance(s.value, ast.BinOp):
                 self.expr(s.value)  # dead expression statement (np.pi / xmax): must still be in the subset
                 continue
